@@ -372,6 +372,40 @@ def adaptor_ties(ctx):
         ctx.count("adaptor_malformed_%s" % ("loads" if real else "rejected"))
 
 
+def printer_tie(ctx):
+    """tree by tree: the Coq printer UmlWriter.print_node (the assumed writer the theorems speak about) against its Python twin
+    (translator/umlblob.print_node, used by harness/umlblob.py to synthesise project files) and against the stored bytes"""
+    from translator import umlblob as tu
+    db = ub.read_rows(vs.BLOB_XML)
+    n = 0
+    for m in db[2]:
+        if ctx.quick and n >= 150:
+            break
+        try:
+            tree = tu.read_blob(m[4])
+        except Exception:  # noqa -- a blob outside the structured grammar (not needed by the class diagrams)
+            ctx.count("printer_tie_unstructured_blob")
+            continue
+        n += 1
+        coq = ctx.km.call("ub_print_node", ub.tree_v(tree))
+        if coq != m[4] or tu.print_node(tree) != m[4]:
+            ctx.tie_broken("UmlWriter.print_node / its Python twin do not reproduce a shipped blob", {"id": m[0]})
+        ctx.count("printer_tie_shipped_blobs")
+    for i in range(ctx.budget(6, 60)):
+        cd = us.load(us.DIAGRAMS[i % 2])
+        r2 = random.Random(ctx.rng.randint(0, 1 << 30))
+        try:
+            us.mutate(r2, cd, r2.randint(0, 3))
+            ub.project_rows(r2, cd)
+        except Exception:  # noqa
+            continue
+        for tree in ub.LAST_TREES:
+            if ctx.km.call("ub_print_node", ub.tree_v(tree)) != tu.print_node(tree):
+                ctx.tie_broken("correspondence UmlWriter.print_node vs the Python writer twin on a synthesised blob", {"id": tree[1]})
+            ctx.count("printer_tie_synthesised_blobs")
+    ctx.case(("printer-tie",))
+
+
 def separator_probe(ctx):
     """outside the domain of the adaptor theorem (C19_adaptor_name_refuted): an operation called operator< in a project file"""
     cd = us.load("TestClassDiagram")
@@ -515,6 +549,7 @@ def run(ctx):
     derived_project_probe(ctx)
     if ctx.km is not None:
         adaptor_ties(ctx)
+        printer_tie(ctx)
     separator_probe(ctx)
     directed_probes(ctx)
     n = ctx.budget(60, 200)
